@@ -439,8 +439,9 @@ class Run:
         rp.mkdir(parents=True, exist_ok=True)
         for old in rp.glob("*.json"):
             old.unlink()
-        for sig, hit in sorted(self.known_hits.items()):
-            print(f"KNOWN-FINDING: property={self.pid} {self.known[sig]['what']} [{sig}]")
+        for sig in sorted(self.known):
+            seen = "observed in this run" if sig in self.known_hits else "listed; not hit by this run's sample"
+            print(f"KNOWN-FINDING: property={self.pid} {self.known[sig]['what']} [{sig}; {seen}]")
         seen_sig = set()
         for v in self.violations:
             if v["signature"] in seen_sig:
